@@ -85,7 +85,7 @@ class Boolean(object):
                 env[args] = b.args
 
                 if isinstance(b, CaselessPredicate):
-                    return func + "(value.lower(), " + "*" + args + ")"
+                    return func + "(value.lower() if isinstance(value, str) else value, " + "*" + args + ")"
                 return func + "(value, " + "*" + args + ")"
             else:
                 raise Exception(b)
